@@ -14,6 +14,12 @@ import (
 	"verifsim/kernel"
 )
 
+type taggedOdd struct {
+	A string `setec:"db//password"`
+	B []byte `setec:"./x"`
+	C string `setec:"a/../b"`
+}
+
 type taggedStruct struct {
 	One   string       `setec:"one"`
 	Two   []byte       `setec:"two"`
@@ -62,11 +68,24 @@ func RunC10(s *kernel.Sim) *World {
 		uniq[n] = true
 	}
 	var ts, ts2 taggedStruct
+	var tso taggedOdd
 	useStruct := t.Bool(1, 3)
+	useOdd := false
 	if useStruct {
-		cfg.Structs = []setec.Struct{{Value: &ts, Prefix: "st"}}
+		// the prefix is "joined to the front" of each tag (path.Join, as
+		// documented): spellings of one prefix are one prefix
+		pfx := []string{"st", "st", "st/", "st//", "./st", "st/."}[t.Choice(6)]
+		cfg.Structs = []setec.Struct{{Value: &ts, Prefix: pfx}}
 		for _, n := range []string{"st/one", "st/two", "st/three"} {
 			uniq[n] = true
+		}
+		if t.Bool(1, 4) {
+			// tags that are not clean paths
+			useOdd = true
+			cfg.Structs = append(cfg.Structs, setec.Struct{Value: &tso, Prefix: pfx})
+			for _, n := range []string{"st/db/password", "st/x", "st/b"} {
+				uniq[n] = true
+			}
 		}
 		if t.Bool(1, 2) {
 			// the same name declared twice over: listed and tagged
@@ -74,7 +93,7 @@ func RunC10(s *kernel.Sim) *World {
 		}
 		if t.Bool(1, 3) {
 			// ... or tagged in two structs
-			cfg.Structs = append(cfg.Structs, setec.Struct{Value: &ts2, Prefix: "st"})
+			cfg.Structs = append(cfg.Structs, setec.Struct{Value: &ts2, Prefix: pfx})
 		}
 	}
 	cfg.Secrets = declared
@@ -157,6 +176,8 @@ func RunC10(s *kernel.Sim) *World {
 		hangPossible = true
 	}
 	faulty := t.Bool(2, 3)
+	// an outage of many minutes with a caller that set no deadline at all
+	longOutage := !hangPossible && faulty && t.Bool(1, 5)
 	w.Svc.OpaqueCtxErr = t.Bool(1, 3)
 	absentAtFile := map[string]bool{}
 	for _, n := range names {
@@ -165,6 +186,9 @@ func RunC10(s *kernel.Sim) *World {
 			nf := t.Choice(12)
 			if t.Bool(1, 8) {
 				nf = 40 // a long outage: many consecutive failing rounds
+			}
+			if longOutage {
+				nf = 400
 			}
 			for i := 0; i < nf; i++ {
 				o := Outcome{Kind: OutFail}
@@ -182,6 +206,9 @@ func RunC10(s *kernel.Sim) *World {
 					if t.Bool(1, 2) {
 						o.Latency = time.Duration(t.Range(1, 2000))*time.Millisecond + 500*time.Microsecond
 					}
+				}
+				if longOutage && o.Kind == OutOK {
+					o = Outcome{Kind: OutFail} // nothing gets through for minutes
 				}
 				sc = append(sc, o)
 			}
@@ -250,11 +277,17 @@ func RunC10(s *kernel.Sim) *World {
 		w.Tracef("NewStore returned err=%v", cerr)
 	})
 	horizon := 90 * time.Second
+	maxSteps := 4000
 	if deadline > 0 {
 		horizon = deadline + 5*time.Second
 	}
+	if longOutage {
+		horizon = 9 * time.Minute
+		maxSteps = 40000
+		s.Fault("outage-of-many-minutes")
+	}
 	steps := 0
-	for ; !done && !s.Failed() && steps < 4000 && s.Now()-startT < horizon; steps++ {
+	for ; !done && !s.Failed() && steps < maxSteps && s.Now()-startT < horizon; steps++ {
 		_, en := s.Tickets()
 		if len(en) > 0 {
 			s.Release(en[t.Choice(len(en))])
@@ -290,7 +323,7 @@ func RunC10(s *kernel.Sim) *World {
 	// deadline
 	if deadline > 0 {
 		dl := startT + deadline
-		if !done && steps >= 4000 && s.Now() >= dl {
+		if !done && steps >= maxSteps && s.Now() >= dl {
 			w.Fail("deadline", "context ended at t=%v but NewStore is still running %d scheduler steps later without letting time pass (t=%v)", dl, steps, s.Now())
 		}
 		if !done && s.Now() > dl+time.Second {
@@ -325,6 +358,10 @@ func RunC10(s *kernel.Sim) *World {
 	got := map[string]bool{}
 	var prevEnd time.Duration = -1
 	for _, r := range reqs {
+		if !uniq[r.Name] {
+			w.Fail("declared", "NewStore asked the service for %q, which is not one of the declared secrets %q", r.Name, names)
+			break
+		}
 		if got[r.Name] {
 			w.Fail("refetch", "secret %q was requested again (request #%d) after it had been obtained", r.Name, r.Index)
 		}
@@ -405,6 +442,11 @@ func RunC10(s *kernel.Sim) *World {
 			if !bytes.Equal(got, want) {
 				w.Fail("value", "struct field %s does not hold the value of %q", field, name)
 			}
+		}
+		if useOdd {
+			check("A", "st/db/password", []byte(tso.A))
+			check("B", "st/x", tso.B)
+			check("C", "st/b", []byte(tso.C))
 		}
 		check("One", "st/one", []byte(ts.One))
 		check("Two", "st/two", ts.Two)
